@@ -4,9 +4,10 @@ import YaegiVerif.Model.Extract
   extract.go): every exported, non-generic package-level object that can be bound is bound under its
   own name; variables by address; untyped constants as literals denoting exactly their value; every
   exported interface (one that is usable as a type) gets a wrapper struct with exactly its exported
-  methods, parameters named (`a<i>` when the interface leaves them unnamed), the last parameter
-  `...T` and forwarded with `...` iff the method is variadic, results preserved; the file imports what
-  its text names.
+  methods, every parameter named so that it can be forwarded (its own name when that is a usable
+  one, else `a<i>` made distinct from every other name of the method), the last parameter `...T` and
+  forwarded with `...` iff the method is variadic, results preserved (a result that is called like the
+  receiver is renamed); the file imports what its text names.
 -/
 namespace YaegiVerif.Extract.Spec
 open YaegiVerif.Extract
@@ -28,13 +29,17 @@ def ident (provided : List String) (p : Pkg) (name : String) : Ident :=
 
 /-- constants: typed ones (and untyped booleans) are bound by name, the other untyped ones by a
     literal denoting exactly the value -/
+def exact : CNum → Num
+  | .int n => .int n
+  | .flt n d _ => .rat n d
+
 def constForm (id : Ident) : Option CVal → Form
   | none => .value id
   | some (.int n) => .lit .INT (.int n)
   | some (.flt n d _) => .lit .FLOAT (.rat n d)
   | some (.str s) => .lit .STRING (.str s)
   | some (.bool _) => .value id
-  | some .cplx => .lit .COMPLEX .cplx
+  | some (.cplx re im) => .lit .COMPLEX (.cplx (exact re) (exact im))
 
 def valForm (provided : List String) (p : Pkg) (o : Obj) : Option Form :=
   if !bindable o then none else
@@ -55,33 +60,75 @@ def isIface (o : Obj) : Bool :=
   | .iface _ _ _ _ => true
   | _ => false
 
-def paramName (i : Nat) (p : Param) : String := if p.name == "" then "a" ++ toString i else p.name
+/-- can the name be kept: it names a value and is not the receiver's -/
+def usable (n : String) : Bool := n != "" && n != "_" && n != "W"
+
+/-- `base` followed by as few `_` as it takes to differ from every name in `taken` -/
+def distinctFrom : Nat → List String → String → String
+  | 0, _, s => s
+  | f + 1, taken, s => if taken.contains s then distinctFrom f taken (s ++ "_") else s
+
+def invent (taken : List String) (pre : String) (i : Nat) : String :=
+  distinctFrom (taken.length + 1) taken (pre ++ toString i)
+
+/-- names of the parameters: own name when usable, else an invented `a<i>`; `taken` = every name the
+    method declares so far. Result: the names and the extended `taken`. -/
+def paramNames : List String → Nat → List Param → List String × List String
+  | taken, _, [] => ([], taken)
+  | taken, i, p :: ps =>
+    if usable p.name then
+      ((paramNames taken (i + 1) ps).1 |>.cons p.name, (paramNames taken (i + 1) ps).2)
+    else
+      ((paramNames (invent taken "a" i :: taken) (i + 1) ps).1 |>.cons (invent taken "a" i),
+       (paramNames (invent taken "a" i :: taken) (i + 1) ps).2)
+
+/-- names of the results: kept (a result needs no name), except the receiver's -/
+def resultNames : List String → Nat → List Param → List String
+  | _, _, [] => []
+  | taken, i, r :: rs =>
+    if r.name == "W" then invent taken "r" i :: resultNames (invent taken "r" i :: taken) (i + 1) rs
+    else r.name :: resultNames taken (i + 1) rs
 
 /-- the printed type of a parameter: `...E` for the last parameter of a variadic method -/
-def wparam (i : Nat) (p : Param) (last : Bool) : WParam :=
+def wparam (name : String) (p : Param) (last : Bool) : WParam :=
   match last, p.elem with
-  | true, some e => { name := paramName i p, typ := e, variadic := true }
-  | _, _ => { name := paramName i p, typ := p.typ, variadic := false }
+  | true, some e => { name := name, typ := e, variadic := true }
+  | _, _ => { name := name, typ := p.typ, variadic := false }
 
-def wparams (variadic : Bool) (n : Nat) : Nat → List Param → List WParam
-  | _, [] => []
-  | i, p :: ps => wparam i p (variadic && (i + 1 == n)) :: wparams variadic n (i + 1) ps
+def wparams (variadic : Bool) (n : Nat) : Nat → List Param → List String → List WParam
+  | i, p :: ps, nm :: ns => wparam nm p (variadic && (i + 1 == n)) :: wparams variadic n (i + 1) ps ns
+  | _, _, _ => []
 
-def wargs (variadic : Bool) (n : Nat) : Nat → List Param → List WArg
+def wargs (variadic : Bool) (n : Nat) : Nat → List String → List WArg
   | _, [] => []
-  | i, p :: ps => { name := paramName i p, ellipsis := variadic && (i + 1 == n) } :: wargs variadic n (i + 1) ps
+  | i, nm :: ns => { name := nm, ellipsis := variadic && (i + 1 == n) } :: wargs variadic n (i + 1) ns
+
+def wresults : List Param → List String → List WParam
+  | r :: rs, nm :: ns => { name := nm, typ := r.typ, variadic := false } :: wresults rs ns
+  | _, _ => []
+
+/-- a nil String field answers "" (fmt prints wrappers) — only where `return ""` is a statement of the
+    method: `String() string` -/
+def stringer (m : Method) : Bool :=
+  m.name == "String" && m.params.isEmpty && match m.results with
+    | [r] => r.isString
+    | _ => false
 
 def wmethod (m : Method) : WMethod :=
+  let taken := "W" :: (m.params ++ m.results).map (·.name)
+  let pn := paramNames taken 0 m.params
   { name := m.name
-    params := wparams m.variadic m.params.length 0 m.params
-    results := m.results.map fun r => { name := r.name, typ := r.typ, variadic := false }
-    args := wargs m.variadic m.params.length 0 m.params
+    params := wparams m.variadic m.params.length 0 m.params pn.1
+    results := wresults m.results (resultNames pn.2 0 m.results)
+    args := wargs m.variadic m.params.length 0 pn.1
     ret := !m.results.isEmpty
-    guard := m.name == "String" }   -- a nil String field answers "" (fmt prints wrappers): accepted
+    guard := stringer m }
 
+/-- the wrapper type prefix is an identifier whatever the import path: letters and digits are kept,
+    everything else becomes `_` -/
 def prefixOf (importPath : String) : String :=
   String.ofList (("_" ++ importPath ++ "_").toList.map fun c =>
-    if c == '/' || c == '-' || c == '.' || c == '~' then '_' else c)
+    if c.isAlphanum || c.toNat ≥ 128 then c else '_')
 
 def wtypeOf (p : Pkg) (o : Obj) : WType :=
   { name := prefixOf p.importPath ++ o.name, iface := o.name,
